@@ -247,17 +247,17 @@ func c01(k, m int, pairwise bool) {
 	sym.Assert(act == wantDefault, "unlisted syscall must get the default action (unset => KILL_PROCESS)")
 }
 
-func VerifC01_k0m0() { c01(0, 0, true) }
-func VerifC01_k1m0() { c01(1, 0, true) }
-func VerifC01_k0m1() { c01(0, 1, true) }
-func VerifC01_k1m1() { c01(1, 1, true) }
-func VerifC01_k2m1() { c01(2, 1, true) }
-func VerifC01_k3m2() { c01(3, 2, true) }
-func VerifC01_k2m2() { c01(2, 2, true) }
+func VerifC01_k0m0()     { c01(0, 0, true) }
+func VerifC01_k1m0()     { c01(1, 0, true) }
+func VerifC01_k0m1()     { c01(0, 1, true) }
+func VerifC01_k1m1()     { c01(1, 1, true) }
+func VerifC01_k2m1()     { c01(2, 1, true) }
+func VerifC01_k3m2()     { c01(3, 2, true) }
+func VerifC01_k2m2()     { c01(2, 2, true) }
 func VerifC01_k130m130() { c01(130, 130, false) }
-func VerifC01_k255m1() { c01(255, 1, false) }
-func VerifC01_k256m0() { c01(256, 0, false) }
-func VerifC01_k300m60() { c01(300, 60, false) }
+func VerifC01_k255m1()   { c01(255, 1, false) }
+func VerifC01_k256m0()   { c01(256, 0, false) }
+func VerifC01_k300m60()  { c01(300, 60, false) }
 
 func VerifC01_k40m0() { c01(40, 0, false) }
 func VerifC01_k80m0() { c01(80, 0, false) }
